@@ -657,7 +657,25 @@ func (c *Ctx) ruleB4() {
 		cons := fmt.Sprintf("%s→go@loop#capture", fnKey(s.fn))
 		mc, ok := s.g.Call.Value.(*ssa.MakeClosure)
 		if !ok {
-			c.ok("B4", cons, s.g.Pos(), "the goroutine is a function call whose arguments are evaluated in the iteration that starts it")
+			// a plain call: arguments are evaluated now, but a POINTER to a variable that lives
+			// across iterations and is reassigned by the loop is shared just like a capture
+			shared := ""
+			for _, a := range s.g.Call.Args {
+				al, ok := a.(*ssa.Alloc)
+				if !ok || sameLoop(hdr, al.Block()) {
+					continue
+				}
+				for _, r := range *al.Referrers() {
+					if st, ok := r.(*ssa.Store); ok && st.Addr == ssa.Value(al) && sameLoop(hdr, st.Block()) {
+						shared = al.Comment
+					}
+				}
+			}
+			if shared != "" {
+				c.bad("B4", cons, s.g.Pos(), fmt.Sprintf("the goroutine started in this loop is handed a pointer to variable %q, which lives across iterations and is assigned again by the loop: a handler still running for one event can observe (and act on) the next event's value — e.g. announce another database's heads under this database's address", shared))
+			} else {
+				c.ok("B4", cons, s.g.Pos(), "the goroutine is a function call whose arguments are evaluated in the iteration that starts it")
+			}
 			continue
 		}
 		bad := ""
